@@ -21,7 +21,7 @@ func init() {
 
 type barrierCase struct {
 	Name      string   `json:"name"`
-	Verb      string   `json:"verb"` // create | delete
+	Verb      string   `json:"verb"`      // create | delete
 	Resources []string `json:"resources"` // "Kind/name" in list order
 	Bound     int      `json:"bound"`
 }
@@ -102,8 +102,8 @@ func kindOfLabel(label string) string {
 
 var resourceOfKind = map[string]string{"ConfigMap": "configmaps", "Secret": "secrets", "Service": "services", "ServiceAccount": "serviceaccounts", "Widget": "widgets"}
 
-// judge checks the barrier on one execution's server log.
-func judge(bc barrierCase, evs []srvEvent, deadlock bool, callErr error) (string, string) {
+// judgeBarrier checks the barrier on one execution's server log.
+func judgeBarrier(bc barrierCase, evs []srvEvent, deadlock bool, callErr error) (string, string) {
 	if deadlock {
 		return "deadlock", "no thread is enabled while some have not finished"
 	}
@@ -200,7 +200,8 @@ func runBarrier(c *core.Ctx) {
 				c.Eval(1)
 				c.Transition(int64(len(ex.Choices)))
 				c.Distinct(bc.Name + fmt.Sprint(ex.Choices))
-				inv, what := judge(bc, *evs, ex.Deadlock, *cerr)
+				c.State(bc.Name + fmt.Sprint(ex.Choices)) // one terminal state per distinct complete schedule
+				inv, what := judgeBarrier(bc, *evs, ex.Deadlock, *cerr)
 				if inv == "" {
 					c.Outcome("barrier:ok")
 					return
@@ -243,7 +244,7 @@ func replayBarrier(c *core.Ctx, data json.RawMessage) []core.Violation {
 		fmt.Println("replay error:", err)
 		return nil
 	}
-	inv, what := judge(rd.Case, *evs, ex.Deadlock, *cerr)
+	inv, what := judgeBarrier(rd.Case, *evs, ex.Deadlock, *cerr)
 	if inv == "" {
 		return nil
 	}
